@@ -618,8 +618,10 @@ class DelHooks(SendHooks):
         if L0 != 'K':
             self.site('del:bounce-recorded-before-DONE', x, g1(E, '$bounced', 0) == 1,
                       'recipient marked done for a %r report before its bounce text was appended: a crash in between loses the recipient silently' % L0, E)
-        a = x.args[2].src()
-        self.site('del:mark-position-is-the-delivery\'s-mpos', x, a.endswith('.mpos'), 'markdone() position argument is %s' % a, E)
+        b_ = g1(E, '$delbyte')
+        num_ = b_ & 255 if isinstance(b_, int) else None
+        self.site('del:mark-position-is-the-delivery\'s-mpos', x, num_ is not None and g1v(args[2]) == 9000 + num_ and g1v(args[0]) == g1(E, 'del_dochan::P:c'),
+                  'markdone(channel %s, ..., position %s) for delivery %s whose recorded mark position is %s' % (g1v(args[0]), g1v(args[2]), num_, 9000 + num_ if num_ is not None else '?'), E)
         E.set('$marked', fs(min(g1(E, '$marked', 0) + 1, 2)))
         return [Outcome(ret=TOP, log='markdone')]
 
@@ -685,6 +687,8 @@ def analyse_del_dochan(db, rep):
                 # the letter and the delivery number are facts about the input
                 st = {'del_dochan::P:c': fs(c), 'G:dline[%d].s[1]' % c: fs(ord(letter)), '$letter': fs(letter),
                       'G:dline[%d].s[0]' % c: fs(delbyte), '$delbyte': fs(delbyte), 'G:concurrency[%d]' % c: fs(DelHooks.CONC)}
+                for i_ in range(DelHooks.CONC):
+                    st['G:d[%d][%d].mpos' % (c, i_)] = fs(9000 + i_)       # each slot's recorded mark position is recognisable
                 eng.run(fn, st)
                 rep.count_states(eng.states, eng.transitions)
                 for k, v in H.sites.items():
@@ -696,6 +700,113 @@ def analyse_del_dochan(db, rep):
         if all(v[0] for v in sites.values()):
             raise AnalysisBroken('del_dochan: markdone/addbounce/job_close not explored (%s)' % counts)
     return sites
+
+
+class ReportBufHooks(DelHooks):
+    """del_dochan() with the report buffer already REPORTMAX bytes long: one more byte arrives"""
+    def __init__(self, byte, rmax, c):
+        super().__init__()
+        self.byte = byte
+        self.rmax = rmax
+        self.c = c
+        self.rows = []
+        self.uses = []
+
+    def site(self, *a, **k):
+        pass
+
+    def tracked_global(self, path):
+        return True
+
+    def precise_arith(self, path):
+        return True
+
+    def materialize(self, E, path):
+        import re
+        m = re.match(r'^G:dline\[(\d)\]\.s$', path)
+        if m:
+            return fs(('&', 'G:dline[%s].s[0]' % m.group(1)))
+        if path == 'G:jo':
+            return fs(('&', 'JO[0]'))
+        return TOP
+
+    def prim_read(self, E, x, args):
+        bp = g1v(args[1])
+        if not (isinstance(bp, tuple) and bp[0] == '&'):
+            raise AnalysisBroken('del_dochan: read() buffer is not an object address')
+        base = bp[1] if bp[1].endswith(']') else bp[1] + '[0]'
+        return [Outcome(ret=fs(1), sets={base: fs(self.byte)})]
+
+    def prim_stralloc_append(self, E, x, args):
+        sa, bp = g1v(args[0]), g1v(args[1])
+        if not (isinstance(sa, tuple) and sa[0] == '&'):
+            return [Outcome(ret=fs(1))]
+        ln = g1(E, sa[1] + '.len')
+        b = g1(E, bp[1]) if isinstance(bp, tuple) and bp[0] == '&' else None
+        if not isinstance(ln, int):
+            return [Outcome(ret=fs(1))]
+        return [Outcome(ret=fs(1), sets={'%s.s[%d]' % (sa[1], ln): fs(b) if b is not None else TOP, sa[1] + '.len': fs(ln + 1)})]
+
+    def _use(self, E, x, args):
+        c = self.c
+        ln = g1(E, 'G:dline[%s].len' % c)
+        nul = [k for k in range(max(0, (ln or 0) - 2), (ln or 0) + 1) if g1(E, 'G:dline[%s].s[%d]' % (c, k)) == 0] if isinstance(ln, int) else []
+        self.uses.append((x.callee, ln, bool(nul), E.trace.list()))
+        return [Outcome(ret=TOP)]
+
+    prim_logsafe = _use
+
+    def prim_markdone(self, E, x, args):
+        return [Outcome(ret=TOP)]
+
+    def prim_addbounce(self, E, x, args):
+        return self._use(E, x, args)
+
+    def prim_job_close(self, E, x, args):
+        return [Outcome(ret=TOP)]
+
+    def on_assign(self, E, x, path, val):
+        pass
+
+    def on_return(self, E, fn, val):
+        if fn.name == 'del_dochan':
+            self.rows.append((g1(E, 'G:dline[%s].len' % self.c), E.trace.list()))
+
+
+def analyse_report_buffer(db, rep):
+    prog = db.program('qmail-send')
+    fn = prog.fn('del_dochan', 'qmail-send.c')
+    rmax = db.unit('qmail-send.c').macro_int('REPORTMAX')
+    if rmax is None:
+        raise AnalysisBroken('REPORTMAX is not an integer constant')
+    bad = {}
+    n = 0
+    for c in (0, 1):
+        for byte in (ord('x'), 0):
+            for start in (rmax, rmax - 1, 5):
+                H = ReportBufHooks(byte, rmax, c)
+                eng = Engine(db, prog, H)
+                st = {'del_dochan::P:c': fs(c), 'G:dline[%d].len' % c: fs(start), 'G:dline[%d].s[0]' % c: fs(0), 'G:dline[%d].s[1]' % c: fs(ord('K')),
+                      'G:concurrency[%d]' % c: fs(2), 'G:d[%d][0].used' % c: fs(1), 'G:d[%d][0].j' % c: fs(1), 'G:d[%d][0].mpos' % c: fs(9000), 'JO[1].flagdying': fs(0), 'JO[1].numtodo': fs(1)}
+                eng.run(fn, st)
+                rep.count_states(eng.states, eng.transitions)
+                for ln, tr in H.rows:
+                    n += 1
+                    if byte != 0 and not (isinstance(ln, int) and ln == min(start + 1, rmax)):
+                        bad.setdefault('del:report-clamped-to-REPORTMAX', ('a report buffer of %d bytes that receives one more byte ends with length %s (documented: grows by one, never beyond REPORTMAX = %d)' % (start, ln, rmax), tr))
+                    if byte == 0 and ln != 0:
+                        bad.setdefault('del:report-buffer-reset-after-report', ('after a complete report the buffer length is %s (documented 0): the next report would be glued to this one' % ln, tr))
+                if byte == 0:
+                    if not H.uses:
+                        bad.setdefault('del:report-text-is-NUL-terminated-inside-the-buffer', ('the report text of a %d-byte report is never used' % start, []))
+                    for callee, ln, nul, tr in H.uses:
+                        if not nul:
+                            bad.setdefault('del:report-text-is-NUL-terminated-inside-the-buffer',
+                                           ('%s() is handed the text of a report that filled the buffer (length %s) with no NUL stored at its end: the text runs on into whatever follows in memory' % (callee, ln), tr))
+    if n < 8 and not bad:
+        raise AnalysisBroken('del_dochan: report buffer scenarios not explored (%d)' % n)
+    return {k: (k not in bad, 'qmail-send.c:del_dochan', bad[k][0] if k in bad else '', bad[k][1] if k in bad else [])
+            for k in ('del:report-clamped-to-REPORTMAX', 'del:report-buffer-reset-after-report', 'del:report-text-is-NUL-terminated-inside-the-buffer')}
 
 
 # =============================================================================== del_start / del_avail
@@ -1313,6 +1424,9 @@ def analyse_cleanup_do(db, rep):
 
 # =============================================================================== pqadd
 class PqaddHooks(SendHooks):
+    def precise_arith(self, path):
+        return True         # small function: every local counter is exact
+
     def on_return(self, E, fn, val):
         stats = {k[6:]: g1(E, k) for k in list(E.store) if k.startswith('$stat:')}
         ins = {k[5:]: g1(E, k, 0) for k in list(E.store) if k.startswith('$ins:')}
